@@ -166,67 +166,82 @@ def shrink(case):
         yield {**case, "ops": ops[:i] + ops[i + 1:]}
 
 
-def bfs(ctx, cls, depth, max_states):
-    start = Model(cls)
-    seen = {(canonical_json(start.snapshot()),
-             fingerprint(rc.classes()[cls]()))}
-    frontier = [([], start)]
+def bfs(ctx, cls, depth, max_states, roots, with_empty):
+    """every catalogue entry and lookup in every state reachable by valid
+    histories that start with one of ``roots`` (this shard's share)"""
+    seen = set()
     nf = nq = 0
-    # the empty start state gets the catalogue as well
-    todo = [([], start)]
-    for level in range(depth + 1):
-        for idx, (hist, m) in enumerate(todo):
-            if idx % ctx.nshards != ctx.shard:
+
+    def attack(hist, m):
+        nonlocal nf, nq
+        for f in O.enumerate_faults(m):
+            if not O.fault_in_domain(m, f):
                 continue
-            for f in O.enumerate_faults(m):
-                if not O.fault_in_domain(m, f):
-                    continue
-                nf += 1
-                g = rebuild(cls, hist)
-                try:
-                    check_fault(cls, g, m, f)
-                except Violation as v:
-                    ctx.fail_now(v, {"cls": cls, "ops": hist,
-                                     "faults": [f]})
-            for q in enumerate_queries(m):
-                if not O.query_available(cls, q):
-                    continue
-                nq += 1
-                g = rebuild(cls, hist)
-                try:
-                    check_lookup(cls, g, m, q)
-                except Violation as v:
-                    ctx.fail_now(v, {"cls": cls, "ops": hist,
-                                     "faults": [["q", q]]})
-        if level == depth:
-            break
+            nf += 1
+            g = rebuild(cls, hist)
+            try:
+                check_fault(cls, g, m, f)
+            except Violation as v:
+                ctx.fail_now(v, {"cls": cls, "ops": hist, "faults": [f]})
+        for q in enumerate_queries(m):
+            if not O.query_available(cls, q):
+                continue
+            nq += 1
+            g = rebuild(cls, hist)
+            try:
+                check_lookup(cls, g, m, q)
+            except Violation as v:
+                ctx.fail_now(v, {"cls": cls, "ops": hist,
+                                 "faults": [["q", q]]})
+
+    def enter(hist, m, op):
+        try:
+            m2 = O.apply_model(m, op)
+            g2 = rebuild(cls, hist + [op])
+            key = (canonical_json(m2.snapshot()), fingerprint(g2))
+        except Exception:
+            return None
+        if key in seen or len(seen) >= max_states:
+            return None
+        seen.add(key)
+        attack(hist + [op], m2)
+        return m2
+
+    empty = Model(cls)
+    if with_empty:
+        attack([], empty)
+    frontier = []
+    for op in roots:
+        m2 = enter([], empty, op)
+        if m2 is not None:
+            frontier.append(([op], m2))
+    for level in range(1, depth):
         nxt = []
         for hist, m in frontier:
             for op in enumerate_ops(m):
-                try:
-                    m2 = O.apply_model(m, op)
-                    g2 = rebuild(cls, hist + [op])
-                    key = (canonical_json(m2.snapshot()), fingerprint(g2))
-                except Exception:
-                    continue
-                if key in seen or len(seen) >= max_states:
-                    continue
-                seen.add(key)
-                nxt.append((hist + [op], m2))
+                m2 = enter(hist, m, op)
+                if m2 is not None:
+                    nxt.append((hist + [op], m2))
         frontier = nxt
-        todo = nxt
     return len(seen), nf, nq
 
 
 def run(ctx):
     depth = 3 if ctx.quick else 5
-    max_states = 2500 if ctx.quick else 40000
-    for cls in ("MG", "SMG", "CRG", "SCRG"):
-        s, nf, nq = bfs(ctx, cls, depth, max_states)
+    max_states = 1200 if ctx.quick else 15000     # per shard subtree
+    jobs = [(cls, op) for cls in ("MG", "SMG", "CRG", "SCRG")
+            for op in enumerate_ops(Model(cls))]
+    mine = {}
+    for k, (cls, op) in enumerate(jobs):
+        if k % ctx.nshards == ctx.shard:
+            mine.setdefault(cls, []).append(op)
+    for cls, roots in mine.items():
+        s, nf, nq = bfs(ctx, cls, depth, max_states, roots,
+                        with_empty=ctx.shard == 0)
         ctx.count(nf + nq, labels=(f"bfs:{cls}",), nontrivial=nf,
                   sample={"cls": cls, "mode": "bfs", "note":
                           f"{s} states, {nf} rejected requests, {nq} lookups"})
-        ctx.extra[f"bfs_states_{cls}"] = s // 1
+        ctx.extra[f"bfs_states_{cls}"] = s
     ctx.extra["bfs_depth_bound"] = str(depth)
 
     def check(case):
